@@ -145,6 +145,17 @@ func (le *LinearEval) eval(e ast.Expr, depth int) Linear {
 		if IsBuiltin(le.Info, x, "len") && len(x.Args) == 1 {
 			return linAtom("len(" + le.atomName(x.Args[0], depth) + ")")
 		}
+		if IsBuiltin(le.Info, x, "cap") && len(x.Args) == 1 {
+			// cap(x[lo:]) is cap(x) - lo
+			if se, ok := Unparen(x.Args[0]).(*ast.SliceExpr); ok && se.High == nil && se.Max == nil && se.Low != nil {
+				lo := le.eval(se.Low, depth)
+				if lo.OK {
+					return linAtom("cap(" + le.atomName(se.X, depth) + ")").Sub(lo)
+				}
+				return Linear{}
+			}
+			return linAtom("cap(" + le.atomName(x.Args[0], depth) + ")")
+		}
 		// a method call without arguments is an atom named by its receiver: x.M()
 		if sel, ok := x.Fun.(*ast.SelectorExpr); ok && len(x.Args) == 0 {
 			if _, isMethod := le.Info.Selections[sel]; isMethod {
